@@ -21,16 +21,30 @@ fn main() {
         check_pair::<B>(&ul[(i / n) as usize], &ur[(i % n) as usize], loc)
     }));
     if !quick {
-        let l = Spec::open(3, 1, 2, 2, 1, 1, 2).universe().all_open();
-        let r = Spec::open(3, 1, 2, 2, 1, 2, 1).universe().all_open();
+        let l = Spec::open(3, 1, 2, 1, 1, 1, 2).universe().all_open();
+        let r = Spec::open(3, 1, 2, 1, 1, 2, 1).universe().all_open();
         let (nl, nr) = (l.len() as u64, r.len() as u64);
         ctx.run_slice(Slice::new(format!("glue-3[{}x{}]", nl, nr), nl * nr, |i, loc| {
             check_pair::<B>(&l[(i / nr) as usize], &r[(i % nr) as usize], loc)
         }));
     }
+    if !quick {
+        // deeper identification chains: four nodes, boundaries up to 4 (one label) and up to 3 (two labels)
+        for (lw, bmax) in [(1usize, 4usize), (2, 3)] {
+            let l = Spec { n_min: 0, n_max: 4, e_min: 0, e_max: 0, ks: 0, kt: 0, lw, lx: 1, a: 1, b: bmax, q: 0 }.universe().all_open();
+            let r = Spec { n_min: 0, n_max: 4, e_min: 0, e_max: 0, ks: 0, kt: 0, lw, lx: 1, a: bmax, b: 1, q: 0 }.universe().all_open();
+            let (nl, nr) = (l.len() as u64, r.len() as u64);
+            ctx.run_slice(Slice::new(format!("glue-deep-4[{}x{}; {} labels, boundary <={}]", nl, nr, lw, bmax), nl * nr, |i, loc| {
+                check_pair::<B>(&l[(i / nr) as usize], &r[(i % nr) as usize], loc)
+            }));
+        }
+    }
+    // structured gluing of many nodes into one class (long zig-zag chains, wire orders that grow deep union-find trees)
+    let gp = ohmc::props::structured::gluing_pairs(if quick { 12 } else { 24 }, if quick { 6 } else { 7 });
+    ctx.run_slice(Slice::new(format!("structured-gluing[{} pairs, up to {} nodes]", gp.len(), gp.iter().map(|p| p.1.nodes.len() + p.2.nodes.len()).max().unwrap_or(0)), gp.len() as u64, |i, loc| check_pair::<B>(&gp[i as usize].1, &gp[i as usize].2, loc)).heavy());
     let meta = Meta {
         rule: "every ordered pair (f,g) of the listed universes of well-formed open hypergraphs over u8 labels (types matching and mismatching); a case is non-trivial when the pair is composable and some identification class has >=2 members with a hyperedge present, or >=3 members".into(),
-        bounds: "glue-deep: <=3 nodes, no edges, boundaries <=3 (repeats allowed), 2 node labels; glue-edges: <=2 nodes, <=1 hyperedge of arity <=2, 2 node labels, boundaries <=2 (quick: left operand input boundary <=1, one edge label); glue-3 (thorough): <=3 nodes".into(),
+        bounds: "glue-deep: <=3 nodes, no edges, boundaries <=3 (repeats allowed), 2 node labels; glue-edges: <=2 nodes, <=1 hyperedge of arity <=2, 2 node labels, boundaries <=2 (quick: left operand input boundary <=1, one edge label); glue-3 (thorough): <=3 nodes, one node label".into(),
         assumptions: vec!["small-scope: sizes above the bounds are not explored".into(), "labels are u8 values from a 2-letter alphabet".into(), "Vec backend".into()],
         explanation: "explicit-state exploration of the real Arrow::compose / >> on every pair; oracle = isomorphism (interfaces pinned) with an independently computed gluing on the plain model; every execution is an implementation execution".into(),
     };
